@@ -5,6 +5,7 @@ mod c04;
 mod c05;
 mod c06;
 mod c07;
+mod c08;
 mod c10;
 mod c12;
 mod c13;
@@ -87,6 +88,7 @@ fn main() {
         "C05" => c05::run(tier),
         "C06" => c06::run(tier),
         "C07" => c07::run(tier),
+        "C08" => c08::run(tier),
         "C10" => c10::run(tier),
         "C12" => c12::run(tier),
         "C13" => c13::run(tier),
